@@ -317,6 +317,7 @@ def load_att(repo):
 
     for fn in ATT_FILES:
         prev_pat = None
+        block = None          # index of the test that heads a `{test ... }` skip-if-failed block
         path = os.path.join(repo, "test/attregex/data", fn)
         for ln, raw in enumerate(open(path, encoding="latin-1").read().split("\n"), 1):
             if not raw.strip() or raw.startswith("#"):
@@ -326,8 +327,15 @@ def load_att(repo):
             m = re.match(r"^:[^:]*:(.*)$", spec)
             if m:
                 spec = m.group(1)
-            if spec.startswith("NOTE") or spec in ("}",):
+            if spec.startswith("NOTE"):
                 continue
+            if spec == "}":
+                block = None
+                continue
+            head = False
+            if spec.startswith("{"):
+                spec = spec[1:]
+                head = True
             if not re.match(r"^[BE]+[a-z$0-9]*$", spec) or len(f) < 4:
                 # conditional / control lines (? | ; { }) and other modes (L, A, S, K) are not plain tests
                 if len(f) >= 2 and re.match(r"^[?|{]?[BEASKL]", f[0]) and f[1] != "SAME":
@@ -359,12 +367,13 @@ def load_att(repo):
                 skip("nul-or-empty")
                 continue
             for mode in spec:
-                if mode == "B":
-                    tests.append(("%s:%d" % (fn, ln), cf, nm, ef, pat, subj, exp))
-                elif mode == "E":
-                    tests.append(("%s:%d" % (fn, ln), cf | EXT, nm, ef, pat, subj, exp))
-                else:
+                if mode not in "BE":
                     break
+                tests.append(("%s:%d" % (fn, ln), cf | (EXT if mode == "E" else 0), nm, ef, pat, subj, exp,
+                              None if head else block))
+                if head:
+                    block = len(tests) - 1
+                    head = False
     return tests, skipped
 
 
@@ -464,8 +473,12 @@ class Runner:
         ck = self.ck
         if not lines:
             return
+        import time as _t
+        t0 = _t.time()
         c_all, m_all = self.both_parallel(lines)
         h = self.hist
+        ph = ck.cov.setdefault("phase_s", {})
+        ph[label] = round(ph.get(label, 0) + _t.time() - t0, 1)
         h["lines"] += len(lines)
         for line, c, m in zip(lines, c_all, m_all):
             ck.cov["op_lines"] = ck.cov.get("op_lines", 0) + 1
@@ -482,6 +495,8 @@ class Runner:
                 h["execs"] += nt
                 ns = c.count(" slow")
                 h["skipped_slow"] += ns
+                if ns and len(h.setdefault("slow_samples", [])) < 6:
+                    h["slow_samples"].append("cflags=%s pattern=%r" % (w[1], bytes.fromhex(w[2])))
                 nm_ = c.count(" -")
                 h["nomatch"] += nm_
                 h["match"] += nt - nm_ - ns
@@ -554,13 +569,21 @@ def run_att(ck, rn, hcmd, dcmd):
     """AT&T regression table: implementation vs the table's answers (labelled test, includes
     sub-matches); pmatch[0] additionally vs the model; every answer through the Lean pmatchOk."""
     tests, skipped = load_att(vf.REPO)
-    lines = ["p %d %s %d %d %s" % (cf, vf.hexs(pat), nm, ef, vf.hexs(subj)) for (_, cf, nm, ef, pat, subj, _) in tests]
+    lines = ["p %d %s %d %d %s" % (cf, vf.hexs(pat), nm, ef, vf.hexs(subj)) for (_, cf, nm, ef, pat, subj, _, _) in tests]
     c_all, m_all = rn.both_parallel(lines)
     ok = bad = model_cmp = 0
     klines, kidx = [], []
-    for i, ((where, cf, nm, ef, pat, subj, exp), c, m) in enumerate(zip(tests, c_all, m_all)):
+    verdicts = [att_verdict(t[6], c) for t, c in zip(tests, c_all)]
+    for i, ((where, cf, nm, ef, pat, subj, exp, blk), c, m) in enumerate(zip(tests, c_all, m_all)):
         ck.count(1)
-        if att_verdict(exp, c):
+        if blk is not None and not verdicts[blk]:
+            skipped["in-block-whose-head-test-fails(unsupported feature)"] = \
+                skipped.get("in-block-whose-head-test-fails(unsupported feature)", 0) + 1
+            continue
+        if any(t[7] == i for t in tests) and not verdicts[i]:
+            skipped["block-head-feature-test"] = skipped.get("block-head-feature-test", 0) + 1
+            continue
+        if verdicts[i]:
             ok += 1
         else:
             bad += 1
